@@ -1,36 +1,40 @@
 #!/usr/bin/env python3
-"""Rewrites the section between <!-- REFACTOR2-BEGIN --> and <!-- REFACTOR2-END --> in DESIGN.md
-from refactors/b-R*-k/{meta.json,checks.txt (first pass),checks_final.txt}."""
-import json, os, re, glob
+"""Rewrites the sections between <!-- REFACTORn-BEGIN --> and <!-- REFACTORn-END --> (n = 2, 3) in
+DESIGN.md from refactors/{b,c}-R*-k/{meta.json,checks.txt (first pass),checks_final.txt}."""
+import json, os, re, glob, sys
 HERE = os.path.dirname(os.path.dirname(os.path.abspath(__file__)))
-rows = []
-def fired(path):
-    if not os.path.exists(path):
-        return None
-    t = open(path, errors="replace").read()
-    m = re.search(r"SEEDCHECK fired:(.*)$", t, re.M)
-    return m.group(1).strip() if m else "?"
-n = silent_first = silent_now = 0
-for d in sorted(glob.glob(os.path.join(HERE, "refactors", "b-R*-*"))):
-    name = os.path.basename(d)
-    try:
-        meta = json.load(open(os.path.join(d, "meta.json")))
-    except Exception:
-        continue
-    first = fired(os.path.join(d, "checks.txt"))
-    final = fired(os.path.join(d, "checks_final.txt"))
-    n += 1
-    silent_first += first == "none"
-    silent_now += final == "none"
-    title = meta.get("title", "").replace("|", "/")
-    if len(title) > 170:
-        title = title[:167] + "..."
-    rows.append(f"| {name} | {title} | {first} | {final} |")
-hdr = ["| refactoring | what it does | alarms, first pass | alarms now |",
-       "|-------------|--------------|--------------------|------------|"]
-body = "\n".join(hdr + rows)
-p = os.path.join(HERE, "DESIGN.md")
-s = open(p).read()
-s = re.sub(r"<!-- REFACTOR2-BEGIN -->.*<!-- REFACTOR2-END -->", "<!-- REFACTOR2-BEGIN -->\n" + body + "\n<!-- REFACTOR2-END -->", s, flags=re.S)
-open(p, "w").write(s)
-print(f"{n} refactorings, silent first pass {silent_first}, silent now {silent_now}")
+def table(prefix, tag):
+  global rows, n, silent_first, silent_now
+  rows = []
+  def fired(path):
+      if not os.path.exists(path):
+          return None
+      t = open(path, errors="replace").read()
+      m = re.search(r"SEEDCHECK fired:(.*)$", t, re.M)
+      return m.group(1).strip() if m else "?"
+  n = silent_first = silent_now = 0
+  for d in sorted(glob.glob(os.path.join(HERE, "refactors", prefix + "-R*-*"))):
+      name = os.path.basename(d)
+      try:
+          meta = json.load(open(os.path.join(d, "meta.json")))
+      except Exception:
+          continue
+      first = fired(os.path.join(d, "checks.txt"))
+      final = fired(os.path.join(d, "checks_final.txt"))
+      n += 1
+      silent_first += first == "none"
+      silent_now += final == "none"
+      title = meta.get("title", "").replace("|", "/")
+      if len(title) > 170:
+          title = title[:167] + "..."
+      rows.append(f"| {name} | {title} | {first} | {final} |")
+  hdr = ["| refactoring | what it does | alarms, first pass | alarms now |",
+         "|-------------|--------------|--------------------|------------|"]
+  body = "\n".join(hdr + rows)
+  p = os.path.join(HERE, "DESIGN.md")
+  s = open(p).read()
+  s = re.sub(r"<!-- "+tag+"-BEGIN -->.*<!-- "+tag+"-END -->", "<!-- "+tag+"-BEGIN -->\n" + body + "\n<!-- "+tag+"-END -->", s, flags=re.S)
+  open(p, "w").write(s)
+  print(f"{tag}: {n} refactorings, silent first pass {silent_first}, silent now {silent_now}")
+table("b", "REFACTOR2")
+table("c", "REFACTOR3")
